@@ -1247,6 +1247,22 @@ static int _GD_Rename(DIRFILE *D, gd_entry_t *E, const char *new_name,
 
   D->fragment[E->fragment_index].modified = 1;
 
+  /* Update /REFERENCE directives naming this field */
+  {
+    int i;
+    for (i = 0; i < D->n_fragment; ++i)
+      if (D->fragment[i].ref_name &&
+          strcmp(D->fragment[i].ref_name, E->field) == 0)
+      {
+        char *ref = _GD_Strdup(D, rdat->new_name);
+        if (ref) {
+          free(D->fragment[i].ref_name);
+          D->fragment[i].ref_name = ref;
+          D->fragment[i].modified = 1;
+        }
+      }
+  }
+
   /* Update database metadata */
   _GD_PerformRename(D, rdat);
 
